@@ -368,6 +368,10 @@ type DeleteObjectOptions struct {
 	// The special value "*" matches any existing object (i.e. HTTP If-Match: *),
 	// returning ErrPreconditionFailed only when the object does not exist.
 	IfMatchETag *string
+	// IfMatchLastModifiedTime, when non-nil, requires the stored object's
+	// Last-Modified to equal this value before deleting; otherwise
+	// ErrPreconditionFailed is returned.
+	IfMatchLastModifiedTime *time.Time
 }
 
 type DeleteObjectResult struct {
